@@ -12,7 +12,7 @@ MANIFEST = dict(
          "state graph is replayed on the real TxPool and the hook-emitted linearised events (results of AddTx/AddTxs/GetTxs/DelTxs) are "
          "validated by TLC against the order-insensitive set semantics; concurrent 8-goroutine runs of the real pool are validated the same way.",
     note="The hook runs under pool.RW after the state change (deferred before Unlock), sequence numbers are taken under the same lock. "
-         "The abstract semantics allows the documented box-dropped-with-its-sub-tx behaviour. The fork-switch clause is checked through a real engine (PoolFork.tla: every tree of 4 blocks carrying <=1 of 3 transactions each, every insertion order; quick replays a seeded sample of 600 of the 34k behaviours).",
+         "The abstract semantics allows the documented box-dropped-with-its-sub-tx behaviour. The fork-switch clause is checked through a real engine (PoolFork.tla: every tree of 3 blocks - thorough: 4, sampled - carrying <=1 of 3 transactions each, every insertion order; a block may arrive with enough confirms or get them later (InsertConfirms), so the stable block moves, sibling forks are pruned and the head leaves a cut fork in the same call; block times and transaction expirations come from two or three epochs more than the 30 min transaction lifetime apart, so the replay guard is pruned by time and old transactions expire; expected pool after every call = the non-expired transactions the node was ever given (submitted before the run - all or none - or stored in a block) that are not on the head's chain. TLC checks that rule as an invariant of the modelled mechanism (guard cache, GetTxsByBranch, DelOldBlocks) and, as a negative control, finds it violated when the guard is pruned before the fork switch is handled. Quick replays a seeded sample of the behaviours on a real node)",
     technique="TLA+ model checking (TxPool.tla) + replay of the full TLC state graph on the real pool + TLC trace validation (TraceTxPool.tla over TxPoolAbs.tla)")
 
 
@@ -51,11 +51,26 @@ def run(ctx):
             raise __import__("vlib").Broken("race driver failed: " + rr.stdout[-2000:])
         else:
             ctx.validate("TraceTxPool", "TraceTxPool.cfg", [conc2], what="8-goroutine runs (-race build)", timeout=1800)
-    # fork-switch clause through the real engine: PoolFork.tla
+    # fork-switch clause through the real engine: PoolFork.tla (fork switches x stable changes x block-time epochs)
     pdot = ctx.path("poolfork.dot")
-    ctx.tlc_exhaustive("MCPoolFork", "MCPoolFork_n4.cfg", timeout=900, dump=pdot)
-    pfiles, psumm = ctx.replay("poolfork", graph=pdot, shards=16, maxlen=10, limit=600 if ctx.quick() else 12000, chunk=300, timeout=3000)
-    ctx.validate("TracePoolFork", "TracePoolFork.cfg", pfiles, what="engine fork switches with a full pool", timeout=1800)
-    ctx.extra["poolfork"] = dict(behaviours_total=psumm["behaviours_total"], replayed=psumm["behaviours"], graph_edges=psumm["graph_edges"])
+    ctx.tlc_exhaustive("MCPoolFork", "MCPoolFork_n3.cfg", timeout=900, dump=pdot)
+    # negative control: a guard pruned BEFORE the fork switch is handled loses the pool update in the model
+    pneg = ctx.tlc("MCPoolFork", "MCPoolFork_n3_neg.cfg", timeout=600, expect_ok=False)
+    ctx.extra["negative_control_poolfork_prune_first_violates"] = pneg["inv"]
+    if pneg["inv"] != "PoolIsOffChain":
+        raise __import__("vlib").Broken("negative control: pruning the guard before the fork switch should violate PoolIsOffChain in the model")
+    pfiles, psumm = ctx.replay("poolfork", graph=pdot, shards=16, maxlen=10, limit=600 if ctx.quick() else 0, chunk=300, timeout=3000)
+    # 4 blocks, two and three epochs: invariants on every state (thorough), random behaviours of the model on the real node (both tiers)
+    if not ctx.quick():
+        ctx.tlc_exhaustive("MCPoolFork", "MCPoolFork_n4.cfg", timeout=1800)
+        ctx.tlc_exhaustive("MCPoolFork", "MCPoolFork_n3e3.cfg", timeout=900)
+        ctx.tlc_simulate("MCPoolFork", "MCPoolFork_n4.cfg", num=8000, depth=10, prefix="pf4e2", timeout=600)
+    ctx.tlc_simulate("MCPoolFork", "MCPoolFork_n4e3.cfg", num=300 if ctx.quick() else 8000, depth=10, prefix="pf4e3", timeout=600)
+    pfiles4, psumm4 = ctx.replay("poolfork", sim=ctx.path("sim", "pf4e") + "*", name="poolfork4", shards=16, chunk=300, timeout=3000)
+    ctx.validate("TracePoolFork", "TracePoolFork.cfg", pfiles + pfiles4, what="engine fork switches x stable changes x block-time epochs", timeout=1800)
+    ctx.extra["poolfork"] = dict(behaviours_total=psumm["behaviours_total"], replayed=psumm["behaviours"], graph_edges=psumm["graph_edges"],
+                                 replayed_4_blocks=psumm4["behaviours"], actions=dict(psumm["action_counts"]), actions_4_blocks=dict(psumm4["action_counts"]))
     ctx.assumptions += ["transactions are identified by hash; the universe is 3 plain txs and 2 overlapping boxes (model) / 10 txs and 3 boxes (concurrent driver)",
-                        "the order in which GetTxs hands out transactions is not constrained"]
+                        "the order in which GetTxs hands out transactions is not constrained",
+                        "fork-switch clause: 3 deputies (a block is stable with its miner and one more signer), the node under test is an observer; block times from two (3 blocks) or three (4 blocks) epochs 50 min apart; before the run all transactions of the universe were submitted to the node, or none; "
+                        "a transaction expires 1000 s after the start of its epoch; the pool is asked at the latest block time the node has accepted"]
